@@ -421,22 +421,35 @@ class t2data(object):
             listindex = t2data_sections.index(section)
             if listindex == 0: return 0  # SIMUL section
             else:
-                # first look for sections above the one specified,
-                # and put new one just after the last found:
-                for i in reversed(range(listindex)):
-                    try:
-                        section_index = self._sections.index(t2data_sections[i])
-                        return section_index + 1
-                    except ValueError: pass
-                # look for sections below the one specified,
-                # and put new one just before the first found:
-                for i in range(listindex, len(t2data_sections)):
-                    try:
-                        section_index = self._sections.index(t2data_sections[i])
-                        return section_index
-                    except ValueError: pass
-                return len(self._sections)
+                index = self.canonical_insertion_index(listindex)
+                if section in ['SHORT', 'FOFT', 'COFT', 'GOFT']:
+                    # these refer to blocks, connections and generators, so
+                    # can only be read after the sections defining those
+                    # (which may come later than usual, in a model read from file):
+                    for keyword in ['ELEME', 'CONNE', 'GENER']:
+                        if keyword in self._sections:
+                            index = max(index, self._sections.index(keyword) + 1)
+                return index
         except ValueError: return len(self._sections)
+
+    def canonical_insertion_index(self, listindex):
+        """Returns position to insert section with specified index in the
+        canonical section list, based on the positions of its neighbours."""
+        # first look for sections above the one specified,
+        # and put new one just after the last found:
+        for i in reversed(range(listindex)):
+            try:
+                section_index = self._sections.index(t2data_sections[i])
+                return section_index + 1
+            except ValueError: pass
+        # look for sections below the one specified,
+        # and put new one just before the first found:
+        for i in range(listindex, len(t2data_sections)):
+            try:
+                section_index = self._sections.index(t2data_sections[i])
+                return section_index
+            except ValueError: pass
+        return len(self._sections)
 
     def update_sections(self):
         """Updates internal section list, based on which properties are present."""
